@@ -922,6 +922,13 @@ func (rr *recResult) SubmitSuccessfulReplication(ni netmap.NodeInfo) {
 	if n != nil {
 		rr.seen[n.idx] = true
 	}
+	// the policer's own result handlers panic when they are told about more copies than they asked
+	// for; that panic would take the process down from a policer goroutine: reported as a violation
+	defer func() {
+		if x := recover(); x != nil {
+			w.r.Report("replicator-accounting", "more successful copies reported than the task asked for", "the policer's task result handler panicked (%v): task of n%d asked for %d copies, %d successes reported", x, rr.x.owner, rr.q, rr.n)
+		}
+	}()
 	rr.inner.SubmitSuccessfulReplication(ni)
 }
 
